@@ -218,10 +218,13 @@ def run_parallel(binary, lines, timeout=600, extra=(), shard=2000, unlimited_sta
 
 
 def run_impl(binary, lines, peak=False, timeout=600, shard=2000):
+    shard = max(1, min(shard, len(lines) // NCPU + 1))
     return run_parallel(binary, lines, timeout, extra=(["--peak"] if peak else []), shard=shard)
 
 
 def run_model(driver, lines, timeout=1200, shard=1000):
+    # spread over all cores even when there are few (expensive) cases
+    shard = max(1, min(shard, len(lines) // NCPU + 1))
     return run_parallel(driver, lines, timeout, shard=shard, unlimited_stack=True)
 
 
@@ -330,14 +333,15 @@ class Check:
 
 
 class Ctx:
-    def __init__(self, driver):
+    def __init__(self, driver, shard=1000):
         self.driver = driver
+        self.shard = shard
         self.cache = {}
 
     def model_many(self, lines):
         todo = [l for l in dict.fromkeys(lines) if l not in self.cache]
         if todo:
-            res = run_model(self.driver, todo)
+            res = run_model(self.driver, todo, shard=self.shard)
             for l, r in zip(todo, res):
                 self.cache[l] = r
         return [self.cache[l] for l in lines]
@@ -374,7 +378,7 @@ def run_check(chk, tier, replay=None):
     driver = build_model_driver() if proofs_ok or os.path.exists(os.path.join(COQ, "Model", "Dispatch.vo")) else None
     if driver is None:
         raise Infra("model does not build")
-    ctx = Ctx(driver)
+    ctx = Ctx(driver, chk.model_shard)
     bins = {}
     for prof in chk.profiles:
         b, out = build_harness(prof)
